@@ -3,7 +3,7 @@ import VermouthModel.C08
 /-!
 # C07 — model of `vermouth.file_writer.DeferredFileWriter` and of the CLI gate
 
-Transcription of `vermouth/file_writer.py` (after the repair of F-C07-1) over an
+Transcription of `vermouth/file_writer.py` (after the repairs of F-C07-1, F-C07-3, F-C07-4) over an
 abstract file system.
 
 * `Path`  : file names.  `bak p n` is the Gromacs backup name `#p.n#` of `p`
@@ -67,8 +67,9 @@ def Mode.hasPlus : Mode → Bool
   | .rp | .wp | .ap => true
   | _ => false
 
-/-- `'w' in mode or '+' in mode`: finalised by backup-then-move. -/
-def Mode.writeish (m : Mode) : Bool := m.hasW || m.hasPlus
+/-- `'a' not in mode and ('w' in mode or '+' in mode)`: finalised by backup-then-move
+(`write()` tests `'a' in mode` first, so `a+` is finalised by appending). -/
+def Mode.writeish (m : Mode) : Bool := !m.hasA && (m.hasW || m.hasPlus)
 
 structure Entry where
   tmp : Nat
@@ -112,7 +113,7 @@ def setModeFirst : List Entry → Path → Mode → List Entry
 def openOp (st : State) (p : Path) (m : Mode) (data : Bytes) : State × Res :=
   match findEntry st.pending p with
   | some e =>
-      let pend := if m.hasW && !e.mode.hasW && !e.mode.hasPlus then setModeFirst st.pending p m
+      let pend := if m.hasW && e.mode.hasA then setModeFirst st.pending p m
                   else st.pending
       let st' : State := { st with pending := pend }
       -- `_open(tmp_path, mode)`
@@ -127,9 +128,9 @@ def openOp (st : State) (p : Path) (m : Mode) (data : Bytes) : State × Res :=
         let k := st.next
         let pend := st.pending ++ [{ tmp := k, dest := p, mode := m }]
         if m.hasPlus && m.hasR then
-          -- `shutil.copy2(filename, tmp_path)` after the entry was registered
+          -- `shutil.copy2(filename, tmp_path)` before the entry is registered
           match get st.fs p with
-          | none => ({ fs := set st.fs (.tmp k) [], pending := pend, next := k + 1 }, .notFound)
+          | none => (st, .notFound)   -- the temporary is removed again, nothing is registered
           | some c => ({ fs := set st.fs (.tmp k) (writeVia .rp c data), pending := pend, next := k + 1 }, .ok)
         else
           ({ fs := set st.fs (.tmp k) data, pending := pend, next := k + 1 }, .ok)
@@ -175,12 +176,11 @@ system at the moment the entry is popped; `none` = the `AssertionError` /
 `KeyError` branches (stored mode without `w`, `+`, `a`; unreachable, see
 `VermouthProps.C07.stored_modes`). -/
 def entrySteps (fs : FS) (e : Entry) : Option (List Step) :=
-  if e.mode.writeish then
+  if e.mode.hasA then
+    some [Step.touch e.dest, Step.append e.dest (.tmp e.tmp), Step.remove (.tmp e.tmp)]
+  else if e.mode.hasW || e.mode.hasPlus then
     let free := firstFree fs e.dest
     some ((if free ≠ e.dest then [Step.move e.dest free] else []) ++ [Step.move (.tmp e.tmp) e.dest])
-  else if e.mode.hasR then none
-  else if e.mode.hasA then
-    some [Step.touch e.dest, Step.append e.dest (.tmp e.tmp), Step.remove (.tmp e.tmp)]
   else none
 
 /-- `write()` with at most `fuel` mutating calls allowed; the call number
